@@ -25,10 +25,16 @@ Str(s) == IF s = <<>> THEN "" ELSE Head(s) \o Str(Tail(s))
 
 Fates == {"held", "dropped", "forever"}     \* what happened to the ListenerHandle
 Kinds == {"LocalSetNew", "LocalSetChange", "LocalSetSame", "LocalSetAfterDelete", "LocalSetTtlNew",
-          "LocalDelete", "LocalDeleteTtl", "ReplNewerSet", "ReplNewerTtl", "ReplTombstone", "ReplStale"}
+          "LocalDelete", "LocalDeleteTtl", "ReplNewerSet", "ReplNewerTtl", "ReplTombstone", "ReplStale",
+          \* a write that installs a new version whose value string equals what the entry already stores:
+          "LocalSetEmptyAfterDelete",   \* set(k, "") over a tombstone (which stores the empty string)
+          "LocalSetTtlSameValue",       \* set_with_ttl(k, v) over a plain entry holding v
+          "ReplSameValueNewer"}         \* a newer replicated version carrying the same value (a -> b -> a seen as a -> a)
 Fires(kind) == kind \in {"LocalSetNew", "LocalSetChange", "LocalSetAfterDelete", "LocalSetTtlNew",
-                         "ReplNewerSet", "ReplNewerTtl"}
-Owner(kind) == IF kind \in {"ReplNewerSet", "ReplNewerTtl", "ReplTombstone", "ReplStale"} THEN "n2" ELSE "n1"
+                         "ReplNewerSet", "ReplNewerTtl", "LocalSetEmptyAfterDelete", "LocalSetTtlSameValue",
+                         "ReplSameValueNewer"}
+Owner(kind) == IF kind \in {"ReplNewerSet", "ReplNewerTtl", "ReplTombstone", "ReplStale", "ReplSameValueNewer"} THEN "n2" ELSE "n1"
+ValueOf(kind) == IF kind = "LocalSetEmptyAfterDelete" THEN "" ELSE "v1"
 
 VARIABLES subs,   \* sequence of [prefix, fate]
           key, kind, done, calls
@@ -37,7 +43,9 @@ vars == <<subs, key, kind, done, calls>>
 ShortPrefixes == Strings(1)
 Init ==
   /\ key \in Strings(MaxKeyLen)
-  /\ kind \in (IF Family = "two" THEN {"LocalSetNew", "ReplNewerSet"} ELSE Kinds)
+  /\ kind \in (IF Family = "two" THEN {"LocalSetNew", "ReplNewerSet"}
+               ELSE IF Family = "multi" THEN Kinds \ {"LocalSetEmptyAfterDelete", "LocalSetTtlSameValue", "ReplSameValueNewer"}
+               ELSE Kinds)
   /\ IF Family = "pairs"
      THEN subs \in {<<[prefix |-> p, fate |-> f]>> : p \in Strings(MaxPrefixLen), f \in Fates}
      ELSE IF Family = "two"   \* two live subscriptions, one of them possibly longer than the key
@@ -54,7 +62,7 @@ Suffix(p, k) == SubSeq(k, Len(p) + 1, Len(k))
 
 Expected ==
   IF ~Fires(kind) THEN {}
-  ELSE {[sub |-> i, key |-> Str(Suffix(subs[i].prefix, key)), value |-> "v1", node |-> Owner(kind)] :
+  ELSE {[sub |-> i, key |-> Str(Suffix(subs[i].prefix, key)), value |-> ValueOf(kind), node |-> Owner(kind)] :
           i \in {j \in 1..Len(subs) : Active(subs[j]) /\ IsPrefix(subs[j].prefix, key)}}
 
 Fire == ~done /\ done' = TRUE /\ calls' = Expected /\ UNCHANGED <<subs, key, kind>>
